@@ -126,7 +126,7 @@ def run_pmm(ctx, prop):
         traces.append(("G-hist", tr2))
     # ---- leg T: random maps and histories at real scale
     tr3 = os.path.join(ctx.work, "trace_t.ndjson")
-    n = (250 if q else 5000) if boot else (100 if q else 3000)
+    n = (150 if q else 4000) if boot else (80 if q else 2500)
     _run_harness(ctx, prop, "TestVerifPmmRandom", {"TRACE_OUT": tr3, "NTRACES": n, "VERIF_PMM_MODE": mode}, 400, "T-random", tr3)
     traces.append(("T-random", tr3))
 
